@@ -57,3 +57,10 @@ func VerifRolloverKey(oldKey []byte) ([]byte, error) {
 
 // VerifSetOut sets the outgoing sequence counter.
 func (sh *SequenceHandler) VerifSetOut(seq uint32) { sh.outSeq.Store(seq) }
+
+// VerifLatest returns the newest accepted sequence time.
+func (sh *TimeSequenceHandler) VerifLatest() time.Time {
+	sh.lock.Lock()
+	defer sh.lock.Unlock()
+	return sh.latest
+}
